@@ -119,3 +119,58 @@ Proof.
   split; [exact He|]. split; [exact Hj|]. split; [exact Hlab|]. split; [exact Htr | exact Hcomp].
 Qed.
 Print Assumptions C10_compile_wellformed_partial_strong.
+
+(* ---- the full statement ----
+   Every program the compiler model returns is well-formed for a reader without MAX_STR_LEN window
+   (the reader of /repo HEAD: CompilerGen.read_str_windowed = false, so wellformed_gen false = wellformed),
+   under explicit, executable side conditions:
+     program_in_range M o        integer / float literals fit i64 / 64 bits, function handles are 32-bit
+                                 (true for every module built from the Rust types);
+     program_utf8 M o            the strings the compiler copies into the data section (string literals,
+                                 native function names, names of ReadVar / SetVar cards - their
+                                 `.`-separated suffixes become string literals) are valid UTF-8
+                                 (true for every module built from Rust `String`s; the theorem shows that
+                                 cutting at '.' keeps the pieces valid);
+     bytecode < 2^31 bytes       jump operands are `bytecode.len() as i32`;
+     data < 2^32 bytes           string operands are `data.len() as u32`;
+     fewer than 2^32 globals     `next_var` is a u32 counter (wrapping);
+     var_handles_collision_free  Handle::from_u32 is injective on the variable ids 0 .. n-1 in use
+                                 (keys of `variables.names`; a collision would make the compiler drop a
+                                 name).  No injectivity of Handle::from_str on the NAMES is needed: two
+                                 names with the same hash share one id and the tables stay mutually inverse.
+   New with respect to C10_compile_wellformed_partial_strong, all proved as invariants of the
+   compilation state threaded through process_card (CompilerFull.Inv3):
+   (1) every string operand (StringLiteral, NativeFunctionPointer, property shorthands) is the offset of a
+       complete length-prefixed entry of the data section with valid UTF-8 payload, and read_str returns it;
+   (2) every local / upvalue index, both halves of RegisterUpvalue, CloseUpvalue's operand and the five
+       hidden-local operands of BeginForEach / ForEach are in range (index < 255, is_local <= 1);
+   (3) every ReadGlobalVar / SetGlobalVar operand is < the number of globals, ids are exactly 0..n-1 without
+       repetition, `variables.ids` and `variables.names` are mutually inverse.
+   Not proved (not part of [wellformed]; see the comment at Wellformed.index_ok): that a local index is
+   below the number of locals its own function has declared at that point, and that RegisterUpvalue's index
+   refers to an existing local / upvalue of the enclosing function - the checker does not track functions. *)
+From Cao Require Import WellformedSide CompilerFull.
+Theorem C10_compile_wellformed :
+  forall (M : module) (o : options) (B : compiled),
+    compile M o = COk B ->
+    program_in_range M o = true ->
+    program_utf8 M o = true ->
+    (N.of_nat (length (p_bytecode B)) < 2147483648)%N ->
+    (N.of_nat (length (p_data B)) < 4294967296)%N ->
+    (N.of_nat (length (p_ids B)) < 4294967296)%N ->
+    var_handles_collision_free (length (p_ids B)) = true ->
+    wellformed_gen false B.
+Proof. exact compile_wellformed. Qed.
+Print Assumptions C10_compile_wellformed.
+
+(* a concrete instance (global, local captured by a closure, property shorthands, for-each, native
+   function pointer, a non-ASCII string literal): the side conditions evaluate to true and the
+   executable checker agrees with the theorem *)
+Example C10_compile_wellformed_example :
+  exists B, compile full_example_module default_options = COk B /\
+            program_in_range full_example_module default_options = true /\
+            program_utf8 full_example_module default_options = true /\
+            var_handles_collision_free (length (p_ids B)) = true /\
+            wf_check_gen false B = true /\ wellformed_gen false B.
+Proof. exact full_example. Qed.
+Print Assumptions C10_compile_wellformed_example.
